@@ -151,6 +151,16 @@ def items(cfg):
     if cfg['tier'] == 'quick':
         rng.shuffle(out)
         out = out[:cfg['quick_sample']]
+    # relational operators between a SINGLE and a DOUBLE constant that differ
+    # only in precision, both orders (both tiers)
+    for a, b in [('.1', '.1#'), ('3.3!', '3.3#'), ('16777216!', '16777217#'),
+                 ('.7!', '.7#'), ('-.1', '-.1#'), ('1E+10', '10000000001#')]:
+        for op in RELOPS:
+            for x, y in ((a, b), (b, a)):
+                e = '%s %s %s' % (paren(x), op, paren(y))
+                out.append((e, 'print'))
+                out.append((e, 'ifcond'))
+                out.append((e, 'const'))
     # every boundary literal, and literals whose SINGLE value lands on a
     # rounding tie, converted to every numeric type (both tiers)
     lits = []
